@@ -27,7 +27,7 @@ CHECKS = {
  "C09": ("exploration", "4 C09", "seeded simulation of the source's Read schedule: every single split point, one-byte reads, random partitions, data+EOF in one call, compared with the in-memory read",
    "Per sampled file (valid or truncated) every two-fragment schedule is enumerated and several many-fragment schedules are sampled; the result must equal the in-memory read. Schedules are explicit and replayable.",
    "readers return >=1 byte or an error per call; the in-memory read is the reference"),
- "C10": ("fault_enumeration", "4 C10", "I/O fault injection at every byte offset of the output stream (error and legal short write, sticky) and of the consumed input stream (sticky non-EOF error, with and without data)",
+ "C10": ("fault_enumeration", "4 C10", "I/O fault injection at every byte offset of the output stream (error and legal short write, sticky, and a destination that fails once and recovers) and of the consumed input stream (sticky non-EOF error, with and without data)",
    "Per sampled file every fault offset is enumerated in both directions and both legal fault forms; files are sampled by seed. Decides that every injected failure surfaces as an error and that a nil error implies exact size.",
    "the file-name API meets one real failing file system (symlink to /dev/full); otherwise faults come through the io.Writer/io.Reader arguments; writers/readers behave legally"),
  "C04": ("exploration", "4 C04", "seeded sender node + wire: running-status elisions, real-time bytes interleaved anywhere, arbitrary chunking with time deltas on the virtual clock; delivered list and time stamps compared with the sent list",
@@ -48,9 +48,9 @@ CHECKS = {
  "C13": ("exploration", "4 C13", "simulated recording sessions: live stream with seeded inter-arrival gaps on the driver's virtual clock inside a synctest bubble (incl. the stop function's one-second sleep), checked against the receiver model, exact tick conversion, the strict SMF parser and read-back",
    "Samples streams (channel, real-time, system common, sysex, stray data), chunk schedules, gaps from 0 ms to 10 min, tempi and resolutions; the recorded file is validated by the same strict parser as C03.",
    "gaps bounded so that tick counts fit the format's maximum delta; non-channel traffic may be stored or dropped"),
- "C17": ("exploration", "4 C17", "(a) seeded lifecycle call histories on the in-memory driver checked op by op against a lifecycle reference model; (b) the process-backed driver (instrumented at check time via go build -overlay) run under a seeded goroutine scheduler on a fake clock with a simulated helper process (cannot start / slow / stalls / dies), race detector on",
+ "C17": ("exploration", "4 C17", "(a) seeded lifecycle call histories on the in-memory driver checked op by op against a lifecycle reference model; (b) the process-backed driver (instrumented at check time via go build -overlay) run under a seeded goroutine scheduler on a fake clock with a simulated helper process that behaves like a child of os/exec (kernel pipe buffer, Kill destroys what is buffered; cannot start / slow / stalls / dies / ends at once) and listener callbacks that stall, race detector on",
    "Samples call histories (a) and interleavings x helper behaviours (b). In (b) every scheduling decision at an instrumented synchronisation point comes from the seed, the race detector stays fully effective inside the deterministic run (fake-time yields create no happens-before), liveness is decided as 'every lifecycle call returns within a fake-time budget'.",
-   "helper binary and exec.Cmd are stubs; plain memory accesses between two synchronisation points are ordered only by the race detector's report"),
+   "helper binary and exec.Cmd are stubs (modelled after measurements with real child processes, DESIGN.md section 6 defects 22 and 23); plain memory accesses between two synchronisation points are ordered only by the race detector's report"),
 }
 def main():
     checks = []
